@@ -1,2 +1,3 @@
 pub mod window;
 pub mod ledger;
+pub mod breaker;
